@@ -145,6 +145,7 @@ func runC01(c *harness.Ctx) {
 	iat := t.Draw("iat", 3)
 	bias := t.Draw("bias", 2) == 1
 	setBias(bias)
+	steerPads(c, obfs4PadRanges...)
 	id := genObfs4Identity(c, iat)
 	sf, err := obfs4Server(id)
 	if err != nil {
